@@ -124,7 +124,9 @@ class Resolver:
             elif side == "FULL":
                 columns = list(dict.fromkeys(left + right))
             elif kind == "INNER":
-                columns = list(dict.fromkeys(left).keys() & dict.fromkeys(right).keys())
+                # The result of `&` is a set: keep the left operand's column order instead
+                right_columns = set(right)
+                columns = [col for col in dict.fromkeys(left) if col in right_columns]
         else:
             columns = set_op.named_selects
 
